@@ -58,12 +58,22 @@ Proof. vm_compute. repeat split; reflexivity. Qed.
 (* non-vacuity of the time theorems: a terminal that accepts every connection and never says a word; read_card (15 + 2 s)
    spends its 20 attempts, each ending at its handshake deadline, and returns an error after exactly 340 s of virtual time *)
 Example C10_ex_always_silent :
-  let silent := {| cs_refused := false; cs_chunks := []; cs_close := false |} in
+  let silent := {| cs_refused := false; cs_chunks := []; cs_close := false; cs_silent := false |} in
   let cfg := {| c_serial := []; c_terminal_id := []; c_currency := 978; c_amount := 1; c_read_card_timeout := 15; c_password := 0; c_max := 1 |} in
   let w := {| w_conns := []; w_scripts := repeat silent 25; w_cur := None; w_now := 0; w_log := [] |} in
   let '(r, w') := read_card cfg w in
   r = RErr EIncomplete /\ w_now w' = 340000 /\ w_now w' <= Bt ((15 + 2) * 1000) /\ length (w_scripts w') = 5%nat.
 Proof. vm_compute. repeat split; try reflexivity. discriminate. Qed.
+
+(* "on connect": nobody answers the connection attempts at all (neither accepted nor refused) — the same 20 attempts, each ended
+   by the attempt's own deadline, the same 340 s, and no connection was ever opened *)
+Example C10_ex_connect_never_answered :
+  let unanswered := {| cs_refused := false; cs_chunks := []; cs_close := false; cs_silent := true |} in
+  let cfg := {| c_serial := []; c_terminal_id := []; c_currency := 978; c_amount := 1; c_read_card_timeout := 15; c_password := 0; c_max := 1 |} in
+  let w := {| w_conns := []; w_scripts := repeat unanswered 25; w_cur := None; w_now := 0; w_log := [] |} in
+  let '(r, w') := read_card cfg w in
+  r = RErr EIncomplete /\ w_now w' = 340000 /\ w_conns w' = nil /\ length (w_scripts w') = 5%nat.
+Proof. vm_compute. repeat split; try reflexivity. Qed.
 
 Example C10_ex : (255 + 2) * 1000 = 257000 /\ (0 + 2) * 1000 = 2000.
 Proof. split; reflexivity. Qed.
